@@ -20,7 +20,8 @@ from . import c06
 
 HOSTILE = ['../outside', '/../outside', 'a/../../outside', '../../..', '/outside', './../outside', '..', 'x/../..',
            '//outside', '///outside', '/./outside', '//../outside', 'a//../../outside',
-           '..\\outside', '..\\..\\outside', 'a\\..\\..\\outside', '.\\..\\outside']
+           '..\\outside', '..\\..\\outside', 'a\\..\\..\\outside', '.\\..\\outside',
+           './ ../outside', '/ ../outside', 'x/../ ../outside', ' ../outside', '.. /outside', './ ../ ../outside']
 
 
 def run_kernel_case(prog, params):
